@@ -743,3 +743,69 @@ def independent(c):
     c.reset_trace()
     c.call((callers[0], 'call'), pk)
     c.ensure('only-the-all-packet-callback-of-this-caller', "raised is None and calls('cb_') == ('cb_mine',)")
+
+
+@contract('C07', 'dispatch.empty-payload', RUN + [CF + ':_IncomingPacketHandler.add_header_callback', CF + ':_IncomingPacketHandler.add_port_callback'],
+          clause='every packet received from the link - also one that consists of the header byte only (empty payload) - is passed exactly once to '
+                 'the all-packet callbacks and to each matching port / header callback, for all 256 header bytes')
+def dispatch_empty_payload(c):
+    c.int('h', 0, 255)
+    c.int('port', 0, 255), c.int('pm', 0, 255), c.int('ch', 0, 255), c.int('cm', 0, 255), c.int('port2', 0, 15)
+    pk = c.new(STK + ':CRTPPacket', c.get('h'), c.bytes('data', 0))
+    pk2 = c.new(STK + ':CRTPPacket', c.get('h'))                      # built without any data at all
+    h, cf = handler_with_packets(c, [pk, pk2])
+    cb, pcb = c.ext('cb'), c.ext('pcb')
+    c.call((h, 'add_header_callback'), cb, c.get('port'), c.get('ch'), c.get('pm'), c.get('cm'))
+    c.call((h, 'add_port_callback'), c.get('port2'), pcb)
+    c.reset_trace()
+    c.let('pk', pk), c.let('pk2', pk2)
+    c.call((h, 'run'))
+    c.ensure('loop-survives', "raised == 'StopLoop'")
+    c.ensure('all-packet-callbacks-get-both', "len(sent('cf.packet_received.call')) == 2 and is_same(sent('cf.packet_received.call')[0][1][0], pk) "
+             "and is_same(sent('cf.packet_received.call')[1][1][0], pk2)")
+    c.ensure('header-callback-iff-match-once-per-packet', "len(sent('cb')) == (2 if (port == ((h >> 4) & pm) and ch == ((h & 3) & cm)) else 0)")
+    c.ensure('port-callback-iff-port-once-per-packet', "len(sent('pcb')) == (2 if port2 == h >> 4 else 0)")
+    c.ensure('in-arrival-order', "all(is_same(e[1][0], p) for e, p in zip(sent('pcb'), (pk, pk2))) and all(is_same(e[1][0], p) for e, p in zip(sent('cb'), (pk, pk2)))")
+
+
+@contract('C07', 'dispatch.all-packet-callback-changes-registrations', RUN + [CF + ':_IncomingPacketHandler.add_port_callback', CF + ':_IncomingPacketHandler.remove_port_callback'],
+          clause='removing a registration stops deliveries for that registration: a registration removed by an all-packet (packet_received) callback while '
+                 'that packet is being dispatched - the all-packet callbacks run first - does not receive that packet any more, a registration it adds '
+                 'does, and the other registrations are not affected',
+          bounded='one packet; the all-packet callback removes one port callback and adds another, in either order')
+def all_packet_callback_changes_registrations(c):
+    c.int('h', 0, 255)
+    pk = c.new(STK + ':CRTPPacket', c.get('h'), c.bytes('data', 1))
+    c.snapshot('p', 'h >> 4')
+    queue = [pk]
+    stop = c.raiser('StopLoop')
+
+    def rx(*_a):
+        if queue:
+            return queue.pop(0)
+        return stop()
+    order = c.choice('order', ['remove-then-add', 'add-then-remove'])
+    keep, gone, new = c.ext('keep'), c.ext('gone'), c.ext('new')
+    holder = {}
+
+    def all_packets(_i, args, _k):
+        h_ = holder['h']
+        if order == 'remove-then-add':
+            c.invoke((h_, 'remove_port_callback'), c.get('p'), gone)
+            c.invoke((h_, 'add_port_callback'), c.get('p'), new)
+        else:
+            c.invoke((h_, 'add_port_callback'), c.get('p'), new)
+            c.invoke((h_, 'remove_port_callback'), c.get('p'), gone)
+        return None
+    link = c.ext('link', returns={'receive_packet': rx})
+    cf = c.ext('cf', attrs={'link': link}, returns={'packet_received.call': all_packets})
+    h = c.new(CF + ':_IncomingPacketHandler', cf)
+    holder['h'] = h
+    c.call((h, 'add_port_callback'), c.get('p'), keep)
+    c.call((h, 'add_port_callback'), c.get('p'), gone)
+    c.reset_trace()
+    c.call((h, 'run'))
+    c.ensure('loop-survives', "raised == 'StopLoop'")
+    c.ensure('untouched-registration-gets-the-packet-once', "len(sent('keep')) == 1")
+    c.ensure('removed-registration-no-longer-gets-it', "len(sent('gone')) == 0")
+    c.ensure('added-registration-gets-it-once', "len(sent('new')) == 1")
